@@ -362,6 +362,7 @@ type Req struct {
 	URLHost string // URL.Host: empty for an origin-form target; an absolute-form target or a rewriting proxy sets it
 	Header  map[string]string
 	Multi   map[string][]string // further field lines of a header (a list header may be spread over several lines)
+	Gone    bool                // the request's context is already cancelled (the client went away)
 	Fault   *Fault
 }
 
@@ -375,6 +376,9 @@ func (q Req) String() string {
 	}
 	if q.URLHost != "" {
 		s += " url.host=" + q.URLHost
+	}
+	if q.Gone {
+		s += " (context cancelled)"
 	}
 	if len(q.Header) > 0 {
 		ks := make([]string, 0, len(q.Header))
@@ -418,7 +422,13 @@ func NewRequest(q Req, o *Obs) *http.Request {
 		}
 	}
 	o.Fault = q.Fault
-	return r.WithContext(context.WithValue(context.Background(), obsKey{}, o))
+	ctx := context.WithValue(context.Background(), obsKey{}, o)
+	if q.Gone {
+		c, cancel := context.WithCancel(ctx)
+		cancel()
+		ctx = c
+	}
+	return r.WithContext(ctx)
 }
 
 // Serve sends q to s and returns the observation. A panic escaping ServeHTTP is
